@@ -17,7 +17,9 @@ type VerifServerInfo struct {
 // VerifServerInfoOf exposes unexported http2Server state (read-only; call only when the bubble is settled).
 func VerifServerInfoOf(st ServerTransport) VerifServerInfo {
 	t := st.(*http2Server)
-	t.maxStreamMu.Lock()
+	// maxStreamMu may be held by a reader goroutine the harness has parked inside operateHeaders (every goroutine is
+	// durably blocked when this is called, so the unlocked read is race-free)
+	locked := t.maxStreamMu.TryLock()
 	t.mu.Lock()
 	r := VerifServerInfo{State: int(t.state), MaxStreamID: t.maxStreamID}
 	for id := range t.activeStreams {
@@ -28,7 +30,9 @@ func VerifServerInfoOf(st ServerTransport) VerifServerInfo {
 		r.DrainFired = t.drainEvent.HasFired()
 	}
 	t.mu.Unlock()
-	t.maxStreamMu.Unlock()
+	if locked {
+		t.maxStreamMu.Unlock()
+	}
 	sort.Slice(r.Active, func(i, j int) bool { return r.Active[i] < r.Active[j] })
 	select {
 	case <-t.done:
